@@ -62,7 +62,7 @@ fn boundary_t() -> BoxedStrategy<u32> {
 fn below_strat(tier: Tier) -> BoxedStrategy<BelowCase> {
   let tmax = tier.pick(40u32, 130u32);
   (
-    (bytes(300), bytes(24), prop_oneof![30 => 2u32..9, 20 => 9u32..33, 10 => 33u32..tmax + 1, 1 => boundary_t()]),
+    (bytes(300), epoch(), prop_oneof![30 => 2u32..9, 20 => 9u32..33, 10 => 33u32..tmax + 1, 1 => boundary_t()]),
     prop_oneof![3 => Just(0u16), 1 => any::<u16>()],
     vec((any::<u16>(), any::<u16>()), 0..5),
     any::<bool>(),
@@ -265,7 +265,7 @@ pub struct ScanCase {
 }
 
 fn scan_strat(tier: Tier) -> BoxedStrategy<ScanCase> {
-  (bytes(tier.pick(1200, 8000)), bytes(24), prop_oneof![40 => 2u32..9, 20 => 9u32..33, 10 => 33u32..65, 1 => boundary_t()], proptest::option::of(bytes(400)))
+  (bytes(tier.pick(1200, 8000)), epoch(), prop_oneof![40 => 2u32..9, 20 => 9u32..33, 10 => 33u32..65, 1 => boundary_t()], proptest::option::of(bytes(400)))
     .prop_map(|(m, epoch, t, aux)| ScanCase { m, epoch, t, aux })
     .boxed()
 }
